@@ -303,7 +303,7 @@ def rule_send_transmits(ctx, res):
     nu = 0
     for p in us.complete_paths():
         nu += 1
-        c = find_calls(p.ret, 'tokio::net::UdpSocket::send_to')
+        c = find_calls(p.ret, 'tokio::net::UdpSocket::send_to') or [('call', e[1], e[2], e[3]) for e in p.effects if e[0] == 'call' and e[1] == 'tokio::net::UdpSocket::send_to']
         if c:
             a = [strip_transparent(x) for x in c[0][2]]
             oku = is_param(root_of(a[0]), 'self') and is_param(root_of(a[1]), 'buf') and is_param(root_of(a[2]), 'target')
